@@ -97,7 +97,7 @@ fn run_batch(out: &mut CaseOut, w: usize, vals: &[i64], via: &[Via], zx_row: boo
     for (k, v) in vals.iter().enumerate() {
         let entry = |v: i64| -> Entry {
             if v >= 0 {
-                Entry::Num(v as u64, if k % 3 == 1 { Radix::Hex(false, true) } else { Radix::Dec })
+                Entry::Num(v as u64, Radix::Dec)
             } else {
                 Entry::Paren(Expr::konst(v))
             }
